@@ -650,6 +650,17 @@ def lifetime_programs(ctx, rng):
     def dt(i):
         return fdt[(i + seed) % len(fdt)]
 
+    # ---- must-pass (every run, every seed): the witnesses of the repaired defect d206752 — for the element types the MLIR
+    # runtime re-views, to_numpy of a TEMPORARY result (the owning storage has no other holder once the call returns) and
+    # to_numpy(asarray(a)) followed by `del a, x`
+    for mdt in ("complex64", "complex128", "float16"):
+        a = (np.arange(12).reshape(3, 4) + 1).astype(mdt)
+        progs.append((f"life:must-pass:to_numpy-of-temporary:{mdt}",
+                      [["np", "a", np_spec(a)], ["asarray", "x", "a", None], ["op", "r", "add", ["x", "x"]], ["to_numpy", "t", "r"]],
+                      ["r", "a", "x"]))
+        for cp in (None, True):
+            progs.append((f"life:must-pass:to_numpy-del-a-x:{mdt}:copy={cp}",
+                          [["np", "a", np_spec(a)], ["asarray", "x", "a", cp], ["to_numpy", "t", "x"]], ["a", "x"]))
     # ---- NumPy input: copy=None / False / True, ranks 1-4
     shapes = [(3, 4), (5,), (2, 3, 2)] if quick else [(3, 4), (5,), (2, 3, 2), (2, 2, 2, 3), (1, 1)]
     for i, cp in enumerate((None, False, True)):
